@@ -5,7 +5,9 @@
      deletes are environment actions that may fire anywhere) for OneLiveObjectPerKey, CtorNotConcurrent,
      NeverDestroyedWhileBorrowed / NoDangling, ExpiryOnlyUnreferencedAndDue, RecyclerWaitsForAll, FailureNotSticky (NoBad),
      refcount = number of references, and deadlock freedom.  Five broken variants of the model must be caught, seven witness
-     situations must be reachable (anti-vacuity).
+     situations must be reachable (anti-vacuity).  ObjectCacheV2.tla: the box / createlock / rc / LRU protocol of
+     objectcachev2.h under the assumption that no thread stalls for a whole lifespan inside ~Borrow (the configuration
+     without that assumption is run too and its counterexample recorded in the evidence: suspected defect, model only).
  (2) conformance, Tier A: h_objcache --prim oc | oclimit (random programs on the real ObjectCache<int, Val*> with its real
      1 ms expiry timer); every recorded execution is validated by TLC against the abstract cache Trace_ObjectCacheA.tla."""
 import os
@@ -15,33 +17,46 @@ from checks import synccheck
 
 META = dict(
     text='TLC exhausts the ObjectCache protocol (spec/ObjectCache.tla: ref_acquire, ref_release, release(key), expire() of common/expirecontainer.cpp transcribed one action per critical section of the container spinlock, with the per-item mutex, the recycler semaphore, the `blocker` condition and the unlocked steps (reading _obj after the mutex, delete item, notify_all) as separate steps; heap items with raw pointers so that a dangling pointer is visible; clock ticks, expire() and the deferred deletes fire in any state) for 3 threads x 2 keys x (1 acquire + release each) and, in the thorough tier, 3 threads x 1 key x 2 acquires, 2 threads x 2 keys x 2 acquires, a size-limited cache and a longer clock - every constructor outcome (ok / fail, slow = arbitrary interleaving while it runs), cool-down 0/1, release plain / recycle+destroy / recycle+moveout by key and by item: concurrent borrowers of a key share one item/object, at most one constructor per key at a time, no item freed / object destroyed or handed over while a borrow or a raw pointer to it is live, expiry takes only unreferenced members whose lifespan passed (or over the size limit), the recycler erases only at refcnt 0 with no holder, construction is skipped only inside the cool-down of a real failure, refcnt equals the number of references, no deadlock. Five seeded defects of the model (no pop from the expiry list, no parking on a pending recycle, no item mutex, early recycler signal, sticky failure) are each detected; seven situations (parked acquirer, demoted second recycler, move-out, expiry of an object, retry after cool-down, skip inside cool-down, failed caller receiving the object another constructor made) are shown reachable. Recorded executions of the real ObjectCache<int,Val*> (random programs of acquire/ref_acquire/borrow and release/ref_release/~Borrow with recycle and move-out, constructors that succeed / fail / yield / sleep, cool-downs 0..30 ms, lifespans 0..15 ms with the real 1 ms expiry timer, optional size limit, 2-4 threads on 1-3 vCPUs) are validated by TLC against the abstract cache (Trace_ObjectCacheA.tla): every acquire returns the one live object cached for the key, constructor callbacks of a key never overlap and start only when the key has no cached object, every destructor call is for an object that left the cache with no reference (evicted after its lifespan, recycled, moved out, cache destroyed), a recycling release returns only after all other holders released, null only after an own failed constructor or inside the cool-down of a real failure, borrowed objects stay intact while held.',
-    note='TLC results hold for the stated populations and clock ranges; the container spinlock, photon::mutex, semaphore and condition_variable are taken as atomic primitives (their own properties are C01-C03). Conformance samples schedules; time clauses (lifespan, cool-down) are judged with photon::now as read by the harness around the calls with 1 ms slack, so an early expiry or a sticky failure smaller than that is not seen. A second recycling release issued while one is pending is an ordinary release in the code (expirecontainer.cpp:129) and in both specifications. ObjectCacheV2 (objectcachev2.h) is not covered. No sanitizer: use-after-free through a borrowed pointer is seen through the destructor ledger and a magic word in the object.',
+    note='TLC results hold for the stated populations and clock ranges; the container spinlock, photon::mutex, semaphore and condition_variable are taken as atomic primitives (their own properties are C01-C03). Conformance samples schedules; time clauses (lifespan, cool-down) are judged with photon::now as read by the harness around the calls with 1 ms slack, so an early expiry or a sticky failure smaller than that is not seen. A second recycling release issued while one is pending is an ordinary release in the code (expirecontainer.cpp:129) and in both specifications. ObjectCacheV2 (objectcachev2.h) is covered by a model only (spec/ObjectCacheV2.tla: box never erased while referenced, one constructor per key, cool-down, rc = number of references, no deadlock), under the stated assumption that no thread is stalled for a whole lifespan between Box::release() and the end of ~Borrow; without it TLC shows ~Borrow reading a box the reclaimer already erased (recorded in the evidence, not reproduced on the real code). No sanitizer: use-after-free through a borrowed pointer is seen through the destructor ledger and a magic word in the object.',
     technique='TLA+ critical-section model checked exhaustively by TLC (with broken variants and reachability witnesses); TLC trace validation (linearizability against an abstract cache) of executions recorded from the real ObjectCache',
     design='3/C19')
 
-INV = 'OneLiveObjectPerKey CtorNotConcurrent NeverDestroyedWhileBorrowed NoDangling ExpiryOnlyUnreferencedAndDue RecyclerWaitsForAll NoBad RefcntCounts'
 MC_Q = [('MC_ObjectCache', 'MC_ObjectCache_quick.cfg', 1500)]
 MC_T = MC_Q + [('MC_ObjectCache', 'MC_ObjectCache_limit.cfg', 1800), ('MC_ObjectCache', 'MC_ObjectCache_clock.cfg', 1800),
                ('MC_ObjectCache', 'MC_ObjectCache_t2k2a2.cfg', 2400), ('MC_ObjectCache', 'MC_ObjectCache_t3k1a2.cfg', 3000)]
+MC_V2_Q = [('MC_ObjectCacheV2', 'MC_ObjectCacheV2_quick.cfg', 1800)]
+MC_V2_T = MC_V2_Q + [('MC_ObjectCacheV2', 'MC_ObjectCacheV2_thorough.cfg', 3000),
+                     ('MC_ObjectCacheV2', 'MC_ObjectCacheV2_fixed.cfg', 1800)]    # proposed repair, no stall assumption
 BUGS = ['nopop', 'nopark', 'nomtx', 'early', 'sticky']
 WITNESSES = ['Parked', 'Retry', 'Skip', 'Race116', 'Demoted', 'MovedOut', 'Expired']
 MODES_Q = [('oc', 110), ('oclimit', 40)]
-MODES_T = [('oc', 2200), ('oclimit', 800)]
+MODES_T = [('oc', 1600), ('oclimit', 500)]
 
 
 def _expected_violations(ctx):
     """broken variants must be caught, witnesses must be reachable; both are TLC runs that stop at the first violation"""
-    jobs = [('bug', b, f'MC_ObjectCache_bug_{b}.cfg') for b in BUGS] + [('witness', w, f'MC_ObjectCache_w_{w}.cfg') for w in WITNESSES]
+    jobs = [('bug', b, 'MC_ObjectCache', f'MC_ObjectCache_bug_{b}.cfg') for b in BUGS] + \
+           [('witness', w, 'MC_ObjectCache', f'MC_ObjectCache_w_{w}.cfg') for w in WITNESSES] + \
+           [('bug', 'v2-nocreatelock', 'MC_ObjectCacheV2', 'MC_ObjectCacheV2_bug.cfg'),
+            ('doc', 'v2-asis', 'MC_ObjectCacheV2', 'MC_ObjectCacheV2_asis.cfg')]
 
     def one(job):
-        kind, name, cfg = job
-        r = ctx.tlc('MC_ObjectCache', cfg, workers=2, timeout=1500, xmx='3g')
+        kind, name, mod, cfg = job
+        r = ctx.tlc(mod, cfg, workers=2, timeout=1500, xmx='3g')
         return kind, name, r
     caught, reached = {}, {}
     with ThreadPoolExecutor(max_workers=4) as ex:
         for kind, name, r in ex.map(one, jobs):
             if r['timeout'] or r['error'] or r['deadlock']:
                 raise vtlib.InfraError(f'TLC failed on the {kind} configuration {name} (see {r["log"]})')
+            if kind == 'doc':
+                # ObjectCacheV2 WITHOUT the stall assumption (StallFree = FALSE): the counterexample documents the suspected
+                # defect S-C19-V2 (~Borrow tests box->rc after giving its reference up); not reproduced on the real code
+                # (needs a stall of a whole lifespan between two adjacent statements), so it is recorded, not judged.
+                ctx.extra['objectcachev2_without_stall_assumption'] = {
+                    'violated': r['inv_violated'][:1], 'cfg': 'MC_ObjectCacheV2_asis.cfg', 'log': r['log'],
+                    'meaning': 'model-level counterexample only: ~Borrow reads rc of / re-links a box the reclaimer erased'}
+                continue
             if kind == 'bug':
                 caught[name] = r['inv_violated'][:1]
                 if not r['inv_violated']:
@@ -56,10 +71,13 @@ def _expected_violations(ctx):
 
 def run(ctx):
     ctx.samples.append({'constants': open(f'{vtlib.SPEC}/MC_ObjectCache_quick.cfg').read()})
+    if ctx.tier != 'quick':
+        ctx.samples.append({'constants_v2': open(f'{vtlib.SPEC}/MC_ObjectCacheV2_thorough.cfg').read()})
     if not os.environ.get('VERIF_SKIP_MC'):
         with ThreadPoolExecutor(max_workers=1) as bg:
             fut = bg.submit(_expected_violations, ctx)
-            ok = synccheck.mc_all(ctx, [(m, c, to, {'workers': 8}) for m, c, to in (MC_Q if ctx.tier == 'quick' else MC_T)])
+            runs = MC_Q if ctx.tier == 'quick' else (MC_T + MC_V2_T)     # ObjectCacheV2: thorough tier only
+            ok = synccheck.mc_all(ctx, [(m, c, to, {'workers': 8}) for m, c, to in runs])
             fut.result()
         if not ok:
             return ctx.finish()
@@ -68,12 +86,17 @@ def run(ctx):
                         harness='h_objcache', vcpus=3, threads=4, ops=5)
     ctx.assumptions = ['sequential consistency in the specification',
                        'photon spinlock / mutex / semaphore / condition_variable behave as atomic primitives (C01-C03)',
-                       'kernel / OS scheduling picks the interleavings that are sampled']
+                       'kernel / OS scheduling picks the interleavings that are sampled',
+                       'ObjectCacheV2 model only: no thread is stalled for a whole lifespan between Box::release() and the end of ~Borrow (StallFree)']
     return ctx.finish()
 
 
 def replay(ctx, path):
-    if path.endswith('.txt'):      # a counterexample of the specification itself: model-check again
-        ok = synccheck.mc_all(ctx, MC_Q)
+    name = os.path.basename(path)
+    if name.startswith('mc_') and name.endswith('.txt'):      # a counterexample of a specification: model-check that configuration again
+        cfg = name[3:-4]
+        mod = 'MC_ObjectCacheV2' if 'V2' in cfg else 'MC_ObjectCache'
+        ok = synccheck.mc_all(ctx, [(mod, cfg, 3000)])
+        print(f'model-checked {mod}/{cfg} again: {"no violation" if ok else "violation"}')
         return 0 if ok else 1
     return synccheck.replay(ctx, 'Trace_ObjectCacheA', 'Trace_ObjectCacheA.cfg', path)
